@@ -129,6 +129,8 @@ def ext_hook(ex, args, kw):
 def build(w):
     for c in c04.build(w, 'apply'):
         w.contracts[c.qualname] = c
+        # (the loss-record clause that is a recorded finding of C04 -- D12 -- is C04's to report, not this property's)
+        c.ensures = {k: v for k, v in c.ensures.items() if k != 'job_of_a_vanished_worker_is_marked_in_a_tick_that_reaps_nothing'}
     ps.declare_handlers(w)
     g = w.classes['g']
     g.fields.update({'stopped': MapS(IntS, BoolS), 'grown': IntS, 'shrunk': IntS})
